@@ -62,6 +62,9 @@ THEOREMS = [NS + n for n in [
     "schema_reuse_eq_fresh",
     "schema_cache_serving_misses_witness",
     "schema_find_cache_shape_ok",
+    "embedded_copy_keeps_parses_independent",
+    "embedded_constant_is_shared_witness",
+    "no_shared_expression_nodes_embedded",
     "tsort_inner_order_independent",
     "absorb_order_independent",
     "absorbed_superset_order_independent",
@@ -301,6 +304,85 @@ def restore_places(funcs, fields):
     return sorted(out)
 
 
+def expression_node_constants():
+    """class-level and module-level constants whose value IS (or contains) an Expression NODE: each is process-wide mutable
+    state — a tree that embeds the constant itself shares one object with every other tree.  Found by introspection of the
+    live classes / modules; for each, the ast of its module says how often it is used WITHOUT `.copy()` / outside
+    `replace_placeholders(…)` (which copies).  (module, owner, name, type, uses)"""
+    import importlib
+    import inspect
+    import pkgutil
+    import sqlglot
+    import sqlglot.optimizer
+    from sqlglot import exp
+    from sqlglot.dialects.dialect import Dialect
+    import sqlglot.dialects as dmod
+
+    def has_node(v, depth=0):
+        if isinstance(v, exp.Expr):
+            return True
+        if depth < 2 and isinstance(v, (list, tuple, set, frozenset)):
+            return any(has_node(x, depth + 1) for x in v)
+        if depth < 2 and isinstance(v, dict):
+            return any(has_node(x, depth + 1) for x in list(v.values()) + list(v.keys()))
+        return False
+
+    found = {}
+    for d in [None] + sorted(dmod.DIALECT_MODULE_NAMES):
+        D = Dialect.get_or_raise(d)
+        for cls in (type(D), type(D).parser_class, type(D).generator_class, type(D).tokenizer_class):
+            for k in cls.__mro__:
+                if not k.__module__.startswith("sqlglot"):
+                    continue
+                for n, v in vars(k).items():
+                    if has_node(v):
+                        found[(k.__module__, k.__qualname__, n)] = type(v).__name__
+    mods = ["sqlglot.transforms", "sqlglot.parser", "sqlglot.generator", "sqlglot.helper", "sqlglot.schema", "sqlglot.lineage",
+            "sqlglot.expressions.core", "sqlglot.expressions.builders", "sqlglot.expressions.datatypes"]
+    for pk in ("optimizer", "generators", "parsers", "dialects", "typing"):
+        try:
+            pkg = importlib.import_module("sqlglot." + pk)
+            mods += [f"sqlglot.{pk}.{x.name}" for x in pkgutil.iter_modules(pkg.__path__)]
+        except Exception:  # noqa
+            pass
+    for mn in sorted(set(mods)):
+        try:
+            mod = importlib.import_module(mn)
+        except Exception:  # noqa
+            continue
+        for n, v in vars(mod).items():
+            if n.startswith("__") or inspect.ismodule(v) or inspect.isclass(v) or callable(v):
+                continue
+            if has_node(v):
+                found[(mn, "<module>", n)] = type(v).__name__
+    out = []
+    for (mn, owner, n), ty in sorted(found.items()):
+        path = os.path.join(REPO, *mn.split(".")) + ".py"
+        uses = uncopied = 0
+        if os.path.exists(path):
+            t = ast.parse(open(path, encoding="utf-8").read())
+            parents = {}
+            for node in ast.walk(t):
+                for ch in ast.iter_child_nodes(node):
+                    parents[ch] = node
+            for node in ast.walk(t):
+                hit = (isinstance(node, ast.Name) and node.id == n and isinstance(node.ctx, ast.Load)) or \
+                      (isinstance(node, ast.Attribute) and node.attr == n and isinstance(node.ctx, ast.Load))
+                if not hit:
+                    continue
+                uses += 1
+                p1 = parents.get(node)
+                copied = isinstance(p1, ast.Attribute) and p1.attr in ("copy", "get", "items", "keys", "values")
+                if isinstance(p1, ast.Call) and getattr(p1.func, "attr", getattr(p1.func, "id", "")) in ("replace_placeholders", "deepcopy", "copy"):
+                    copied = True
+                if isinstance(p1, (ast.Dict, ast.Starred)) or (isinstance(p1, ast.Assign) and p1.value is node) or isinstance(p1, ast.AnnAssign):
+                    copied = True  # re-exported / merged into another table, not embedded into a tree
+                if not copied:
+                    uncopied += 1
+        out.append((mn, owner, n, ty, f"uses={uses} uncopied={uncopied}"))
+    return out
+
+
 def schema_find_shape(chk=None):
     """MappingSchema.find: the cache key, how the cache is read, under which condition a cached value is returned and what
     is stored — one line per statement (`depth:` + source text of the statement head)"""
@@ -536,6 +618,12 @@ def translate(chk) -> str:
     gconfig = {a for a, _ in r["generatorInit"]} - {a for a, _ in r["generatorReset"]}
     for nm, rows in (("parserRestorePlaces", restore_places(pfuncs, pconfig)), ("generatorRestorePlaces", restore_places(gfuncs, gconfig))):
         L.append(f"def {nm} : List (String × String × String) := " + lean_list("(" + ", ".join(lean_str(x) for x in e) + ")" for e in rows))
+    nc = expression_node_constants()
+    chk.cov["expression_node_constants"] = len(nc)
+    L.append("/-- (module, owner, name, type, uses): constants that hold Expression nodes -/")
+    L.append("def expressionNodeConstants : List (String × String × String × String × String) := [")
+    L += ["  (" + ", ".join(lean_str(x) for x in e) + ")" + ("," if i + 1 < len(nc) else "") for i, e in enumerate(nc)]
+    L.append("]")
     L.append("def schemaFindShape : List String := " + lean_list(lean_str(a) for a in schema_find_shape(chk)))
     dinit, dwritten = dialect_fields(chk)
     L.append("def dialectInit : List (String × String) := " + lean_list("(" + lean_str(a) + ", " + lean_str(b) + ")" for a, b in dinit))
@@ -708,7 +796,7 @@ def custom_dialect(which):
 
 def run_case(op, a):
     import sqlglot
-    from sqlglot import parse_one
+    from sqlglot import exp, parse_one
     from sqlglot.optimizer import optimize
     from sqlglot.optimizer.qualify import qualify
     from sqlglot.optimizer.annotate_types import annotate_types
@@ -747,6 +835,21 @@ def run_case(op, a):
         d = custom_dialect(a["which"])
         e = parse_one(a["sql"], read=d)
         return e.sql(dialect=d, identify=True) + " || " + e.sql(dialect=d) + " || " + str(sqlglot.transpile(a["sql"], read=d, write=d))
+    if op == "parse_mutate":   # parse, then edit the returned tree IN PLACE the way callers do
+        from sqlglot.optimizer.normalize_identifiers import normalize_identifiers
+        tree = parse_one(a["sql"], read=a.get("read"))
+        for d in ("snowflake", "oracle"):
+            try:
+                normalize_identifiers(tree, dialect=d)
+            except Exception:  # noqa
+                pass
+        try:
+            qualify(tree, dialect="snowflake", validate_qualify_columns=False)
+        except Exception:  # noqa
+            pass
+        for node in list(tree.find_all(exp.Identifier)):
+            node.set("this", str(node.this).upper())
+        return tree.sql(dialect=a.get("read"))
     if op == "pair":    # use dialect `first` (if any), then answer a fixed corpus with dialect `second`
         outs = []
         if a.get("first") == "*":   # every dialect module imported, every dialect class created and used once
@@ -1032,6 +1135,16 @@ def build_family(chk, n_var):
             fam.append([f"fail{k}{rd}", "parse", {"sql": bad_sql, "read": rd}])
             for pi, q in enumerate(probes):
                 fam.append([f"probe{k}{rd}_{pi}", "sql", {"sql": q, "read": rd, "write": rd, "pretty": False}])
+    # parse A, edit A in place (identifier passes of upper-casing dialects), then parse / transpile B: trees of different
+    # parse calls must not share node objects (a class constant holding a node, embedded without .copy())
+    MUT = [("SELECT * FROM UNNEST(arr) WITH OFFSET", "bigquery"), ("SELECT x, offset FROM t, UNNEST(t.arr) AS x WITH OFFSET", "bigquery"),
+           ("SELECT a FROM t TABLESAMPLE (10 PERCENT)", None), ("SELECT * FROM t LIMIT 5", None), ("SELECT CAST(a AS INT), b::TEXT FROM t", None),
+           ("SELECT a FROM t ORDER BY a", None), ("SELECT COUNT(*), IFNULL(a, 1) FROM t GROUP BY 1", "snowflake"),
+           ("SELECT * FROM t1 JOIN t2 USING (a)", None), ("SELECT a FROM t FOR UPDATE", "mysql"), ("SELECT TOP 3 a FROM t", "tsql")]
+    for k, (q, rd) in enumerate(MUT):
+        fam.append([f"failpm{k}", "parse_mutate", {"sql": q, "read": rd}])
+        fam.append([f"probepm{k}", "sql", {"sql": q, "read": rd, "write": rd, "pretty": False}])
+        fam.append([f"probepmt{k}", "transpile", {"sql": q, "read": rd, "write": "duckdb", "pretty": False}])
     for spec in ("mysql, normalization_strategy = case_sensitive, version = 8.0", "mysql, version = 8.0, normalization_strategy = case_sensitive",
                  "snowflake, normalization_strategy = lowercase", "duckdb, version = 1.2", "mysql, foo = 1, bar = 2, baz = 3",
                  "presto, nope = 1, zzz", "bigquery,,"):
@@ -1415,6 +1528,49 @@ def reuse_checks(chk, budget_s):
                              {"class": "schema-history"})
 
     n += schema_reuse(chk, report_schema, chk.pick(5.0, 60.0))
+
+    # --- trees returned by DIFFERENT calls share no node object (Properties/C15.lean embedded_copy_keeps_parses_independent)
+    from sqlglot.optimizer.qualify import qualify as _qualify
+    DISJOINT_SQL = list(c14.GEN_SQL) + PAIR_CORPUS + ["SELECT * FROM UNNEST(arr) WITH OFFSET", "SELECT x FROM t, UNNEST(t.arr) AS x WITH OFFSET",
+                                                     "SELECT * FROM t TABLESAMPLE (5)", "SELECT a FROM t LIMIT 1 OFFSET 2", "SELECT 1"]
+
+    def node_ids(tree):
+        return {id(x): x for x in tree.walk()}
+
+    t1 = time.time()
+    shared_found = 0
+    for d in dialects:
+        if time.time() - t1 > chk.pick(4.0, 60.0) or shared_found:
+            break
+        dia = Dialect.get_or_raise(d)
+        keep = []      # earlier results stay alive, so ids are comparable
+        for sql in DISJOINT_SQL:
+            r1 = attempt(lambda: [t for t in dia.parse(sql) if t is not None])
+            if isinstance(r1, str) or not r1:
+                continue
+            r2 = attempt(lambda: [t for t in dia.parse(sql) if t is not None])
+            if isinstance(r2, str) or not r2:
+                continue
+            n += 1
+            ids1 = node_ids(r1[0])
+            both = [x for i, x in node_ids(r2[0]).items() if i in ids1]
+            q1 = attempt(lambda: _qualify(r1[0].copy(), schema=None, validate_qualify_columns=False, dialect=d))
+            q2 = attempt(lambda: _qualify(r2[0].copy(), schema=None, validate_qualify_columns=False, dialect=d))
+            if not both and not isinstance(q1, str) and not isinstance(q2, str):
+                idq = node_ids(q1)
+                both = [x for i, x in node_ids(q2).items() if i in idq]
+            keep.append((r1, r2, q1, q2))
+            if both:
+                shared_found += 1
+                found += 1
+                node = both[0]
+                chk.report_violation(f"shared-node:{type(node).__name__}:{abstract_sql(sql)}",
+                                     f"two separate parses of the same statement share the node object {node!r:.80} "
+                                     f"({type(node).__name__}): an in-place edit of one result changes the other",
+                                     {"kind": "shared-node", "sql": sql, "dialect": d, "node": repr(node)[:200]},
+                                     {"class": "shared-node"})
+                break
+    chk.count("reuse:disjointness-checked", n)
     # --- a Parser that CRASHED (an internal exception escaping a speculative sub-parse) must still answer like a new one:
     #     tree, errors list and the error_level attribute, for every error level
     #     (Properties/C15.lean try_parse_restores_level_all_exits / try_parse_restore_needs_finally)
@@ -1749,6 +1905,14 @@ def replay(path: str) -> int:
     if not r:
         print(json.dumps(rec, indent=1)[:4000])
         return 1
+    if r["kind"] == "shared-node":
+        from sqlglot.dialects.dialect import Dialect
+        dia = Dialect.get_or_raise(r["dialect"])
+        a, b = dia.parse(r["sql"])[0], dia.parse(r["sql"])[0]
+        ids = {id(x) for x in a.walk()}
+        sh = [x for x in b.walk() if id(x) in ids]
+        print("replay:", f"VIOLATES: {len(sh)} node object(s) shared between two parses, e.g. {sh[0]!r:.80}" if sh else "holds")
+        return 1 if sh else 0
     if r["kind"] == "reuse-schema":
         import copy
         import logging
